@@ -140,6 +140,7 @@ func verifRunSchedule(out *verifOut, si, n, npollers int, rng *verifRng, sizes [
 		fetchTwice bool
 		delayMs    int
 		abortMid   bool // the client hangs up after the first bytes of the response body
+		tailLate   bool // (with abortMid) a short response whose second chunk and whose trailer section arrive after pauses
 	}
 	plans := make([]cplan, n)
 	withCancels := si%4 == 3
@@ -159,6 +160,11 @@ func verifRunSchedule(out *verifOut, si, n, npollers int, rng *verifRng, sizes [
 			plans[c].dupPost = false
 			if c%3 == 1 {
 				plans[c].abortMid = true
+				if c%2 == 0 {
+					// the rest of the response (a last chunk, then the trailers) reaches the proxy after the client has gone
+					plans[c].tailLate = true
+					plans[c].respSize = 6000 + 3000
+				}
 			}
 		}
 	}
@@ -246,25 +252,57 @@ func verifRunSchedule(out *verifOut, si, n, npollers int, rng *verifRng, sizes [
 		logEv(verifEvent{Kind: "fetch", ID: id, Tok: tok, Status: 200})
 		return tok, true
 	}
-	post := func(id, respTok string, size int, timeout time.Duration) {
+	post := func(id, respTok string, size int, timeout time.Duration, tailLate bool) {
 		pctx, pc := context.WithTimeout(ctx, timeout)
 		defer pc()
 		body := verifBody(respTok, size)
 		var wire bytes.Buffer
+		var cuts []int // tailLate: where the upload pauses
 		fmt.Fprintf(&wire, "HTTP/1.1 200 OK\r\nX-Verif-Resp: %s\r\nTrailer: X-Verif-Trailer\r\nTransfer-Encoding: chunked\r\n\r\n", respTok)
 		for off := 0; off < len(body); {
 			l := 1 + (len(body)-off)/2
 			if l > 20000 {
 				l = 20000
 			}
+			if tailLate {
+				// two chunks: the first reaches the client (which then hangs up), the second arrives after that
+				l = 6000
+				if off > 0 {
+					l = len(body) - off
+				}
+				if off > 0 {
+					cuts = append(cuts, wire.Len())
+				}
+			}
 			fmt.Fprintf(&wire, "%x\r\n", l)
 			wire.Write(body[off : off+l])
 			wire.WriteString("\r\n")
 			off += l
 		}
+		cuts = append(cuts, wire.Len())
 		fmt.Fprintf(&wire, "0\r\nX-Verif-Trailer: %s\r\n\r\n", respTok)
 		var upload io.Reader = &wire
-		if slowBodies {
+		if tailLate {
+			// first chunk; pause; second chunk; pause; the terminating chunk with the trailer section on its own
+			pr, pw := io.Pipe()
+			all := append([]byte(nil), wire.Bytes()...)
+			go func() {
+				prev := 0
+				for k, c := range append(cuts, len(all)) {
+					if _, err := pw.Write(all[prev:c]); err != nil {
+						return
+					}
+					prev = c
+					if k == 0 {
+						time.Sleep(60 * time.Millisecond) // the client has hung up by then
+					} else {
+						time.Sleep(3 * time.Millisecond) // the proxy has noticed by then
+					}
+				}
+				pw.Close()
+			}()
+			upload = pr
+		} else if slowBodies {
 			// the same bytes, uploaded in pieces with pauses (a backend that produces its response over some time)
 			pr, pw := io.Pipe()
 			all := append([]byte(nil), wire.Bytes()...)
@@ -312,9 +350,9 @@ func verifRunSchedule(out *verifOut, si, n, npollers int, rng *verifRng, sizes [
 						return
 					}
 					pl := planByTok[tok]
-					delay, size, dup, twice := 0, 10, false, false
+					delay, size, dup, twice, tailLate := 0, 10, false, false, false
 					if pl != nil {
-						delay, size, dup, twice = pl.delayMs, pl.respSize, pl.dupPost, pl.fetchTwice
+						delay, size, dup, twice, tailLate = pl.delayMs, pl.respSize, pl.dupPost, pl.fetchTwice, pl.tailLate
 					}
 					time.Sleep(time.Duration(delay) * time.Millisecond)
 					if twice {
@@ -324,13 +362,13 @@ func verifRunSchedule(out *verifOut, si, n, npollers int, rng *verifRng, sizes [
 					nonce++
 					nn := nonce
 					nonceMu.Unlock()
-					post(id, fmt.Sprintf("R|%s|%d", tok, nn), size, 5*time.Second)
+					post(id, fmt.Sprintf("R|%s|%d", tok, nn), size, 5*time.Second, tailLate)
 					if dup {
 						nonceMu.Lock()
 						nonce++
 						nn = nonce
 						nonceMu.Unlock()
-						post(id, fmt.Sprintf("R|%s|%d", tok, nn), 8, 300*time.Millisecond)
+						post(id, fmt.Sprintf("R|%s|%d", tok, nn), 8, 300*time.Millisecond, false)
 					}
 				}(id)
 			}
@@ -340,7 +378,7 @@ func verifRunSchedule(out *verifOut, si, n, npollers int, rng *verifRng, sizes [
 		workWG.Add(1)
 		go func(u int) {
 			defer workWG.Done()
-			post(fmt.Sprintf("unknown-%d-%d", si, u), "R|nobody|0", 5, 2*time.Second)
+			post(fmt.Sprintf("unknown-%d-%d", si, u), "R|nobody|0", 5, 2*time.Second, false)
 		}(u)
 	}
 
